@@ -325,4 +325,238 @@ theorem roundEven_mono {a b : Rat} (h : a ≤ b) : roundEven a ≤ roundEven b :
   omega
 
 
+
+
+/-! ## the exponent `rnPos` chooses -/
+
+/-- first guess of the exponent -/
+def exp0 (x : Rat) : Int := (Nat.log2 x.num.toNat : Int) - (Nat.log2 x.den : Int) - 52
+
+/-- the exponent used by `rnPos` -/
+def expOf (x : Rat) : Int :=
+  if scale2 x (-(exp0 x)) < ((2 ^ 52 : Nat) : Rat) then exp0 x - 1 else exp0 x
+
+theorem rnPos_eq (x : Rat) :
+    rnPos x = (roundEven (x * pow2 (-(expOf x))) : Rat) * pow2 (expOf x) := by
+  unfold rnPos expOf exp0
+  simp only [scale2_eq]
+
+/-- numerator and denominator against powers of two -/
+theorem num_den_bounds (x : Rat) (hx : 0 < x) :
+    ∃ N D : Rat, x * D = N ∧ 0 < D ∧
+      pow2 (Nat.log2 x.num.toNat) ≤ N ∧ N < pow2 ((Nat.log2 x.num.toNat : Int) + 1) ∧
+      pow2 (Nat.log2 x.den) ≤ D ∧ D < pow2 ((Nat.log2 x.den : Int) + 1) := by
+  have hnum : 0 < x.num := by
+    have h1 : 0 ≤ x.num := Rat.num_nonneg.2 (Rat.le_of_lt hx)
+    have h2 : x.num ≠ 0 := fun e => by
+      have := Rat.num_eq_zero.1 e; rw [this] at hx; exact absurd hx (by decide)
+    omega
+  have hden : 0 < x.den := x.den_pos
+  have hD : (0 : Rat) < ((x.den : Nat) : Rat) := Rat.natCast_pos.2 hden
+  have hxe : x = ((x.num.toNat : Nat) : Rat) / ((x.den : Nat) : Rat) := by
+    have h1 := Rat.mkRat_self x
+    rw [Rat.mkRat_eq_div] at h1
+    have : ((x.num.toNat : Nat) : Rat) = ((x.num : Int) : Rat) := by
+      rw [← Rat.intCast_natCast]; congr 1; omega
+    rw [this]; exact h1.symm
+  have hn0 : x.num.toNat ≠ 0 := by omega
+  have hd0 : x.den ≠ 0 := by omega
+  refine ⟨((x.num.toNat : Nat) : Rat), ((x.den : Nat) : Rat), ?_, hD, ?_, ?_, ?_, ?_⟩
+  · have := congrArg (fun y => y * ((x.den : Nat) : Rat)) hxe
+    rw [this]
+    exact Rat.div_mul_cancel (Rat.ne_of_gt hD)
+  · rw [pow2_nat]; exact Rat.natCast_le_natCast.2 (Nat.log2_self_le hn0)
+  · have : ((Nat.log2 x.num.toNat : Int) + 1) = ((Nat.log2 x.num.toNat + 1 : Nat) : Int) := by omega
+    rw [this, pow2_nat]; exact Rat.natCast_lt_natCast.2 Nat.lt_log2_self
+  · rw [pow2_nat]; exact Rat.natCast_le_natCast.2 (Nat.log2_self_le hd0)
+  · have : ((Nat.log2 x.den : Int) + 1) = ((Nat.log2 x.den + 1 : Nat) : Int) := by omega
+    rw [this, pow2_nat]; exact Rat.natCast_lt_natCast.2 Nat.lt_log2_self
+
+theorem pow2_52 : ((2 ^ 52 : Nat) : Rat) = pow2 52 := (pow2_nat 52).symm
+
+/-- with the first guess the scaled value lies strictly between `2^51` and `2^53` -/
+theorem exp0_range (x : Rat) (hx : 0 < x) :
+    pow2 51 < x * pow2 (-(exp0 x)) ∧ x * pow2 (-(exp0 x)) < pow2 53 := by
+  obtain ⟨N, D, hND, hD, hN1, hN2, hD1, hD2⟩ := num_den_bounds x hx
+  generalize hlp : (Nat.log2 x.num.toNat : Int) = lp at *
+  generalize hlq : (Nat.log2 x.den : Int) = lq at *
+  have he : -(exp0 x) = lq + 52 - lp := by unfold exp0; rw [hlp, hlq]; omega
+  rw [he]
+  have hP := pow2_pos (lq + 52 - lp)
+  -- multiply through by D > 0
+  constructor
+  · apply Rat.lt_of_mul_lt_mul_right (c := D) _ (Rat.le_of_lt hD)
+    have e1 : x * pow2 (lq + 52 - lp) * D = N * pow2 (lq + 52 - lp) := by rw [← hND]; grind
+    rw [e1]
+    have s1 : pow2 51 * D < pow2 51 * pow2 (lq + 1) := Rat.mul_lt_mul_of_pos_left hD2 (pow2_pos 51)
+    have s2 : pow2 51 * pow2 (lq + 1) = pow2 lp * pow2 (lq + 52 - lp) := by
+      rw [← pow2_add, ← pow2_add]; congr 1; omega
+    have s3 : pow2 lp * pow2 (lq + 52 - lp) ≤ N * pow2 (lq + 52 - lp) :=
+      Rat.mul_le_mul_of_nonneg_right hN1 (Rat.le_of_lt hP)
+    rw [s2] at s1
+    grind
+  · apply Rat.lt_of_mul_lt_mul_right (c := D) _ (Rat.le_of_lt hD)
+    have e1 : x * pow2 (lq + 52 - lp) * D = N * pow2 (lq + 52 - lp) := by rw [← hND]; grind
+    rw [e1]
+    have s1 : N * pow2 (lq + 52 - lp) < pow2 (lp + 1) * pow2 (lq + 52 - lp) :=
+      Rat.mul_lt_mul_of_pos_right hN2 hP
+    have s2 : pow2 (lp + 1) * pow2 (lq + 52 - lp) = pow2 53 * pow2 lq := by
+      rw [← pow2_add, ← pow2_add]; congr 1; omega
+    have s3 : pow2 53 * pow2 lq ≤ pow2 53 * D :=
+      Rat.mul_le_mul_of_nonneg_left hD1 (Rat.le_of_lt (pow2_pos 53))
+    rw [s2] at s1
+    grind
+
+/-- with the final exponent the scaled value lies in `[2^52, 2^53)` -/
+theorem expOf_range (x : Rat) (hx : 0 < x) :
+    pow2 52 ≤ x * pow2 (-(expOf x)) ∧ x * pow2 (-(expOf x)) < pow2 53 := by
+  have h0 := exp0_range x hx
+  unfold expOf
+  rw [scale2_eq, pow2_52]
+  split
+  · next hlt =>
+    have e : -(exp0 x - 1) = -(exp0 x) + 1 := by omega
+    rw [e, pow2_add]
+    have h1 : pow2 1 = 2 := by decide +kernel
+    have h51 : pow2 52 = pow2 51 * 2 := by decide +kernel
+    have h53 : pow2 53 = pow2 52 * 2 := by decide +kernel
+    rw [h1]
+    constructor <;> grind
+  · next hge =>
+    exact ⟨Rat.not_lt.1 hge, h0.2⟩
+
+
+
+
+theorem pow2_int (k : Nat) : pow2 (k : Int) = (((2 ^ k : Nat) : Int) : Rat) := by
+  rw [pow2_nat, Rat.intCast_natCast]
+
+/-- the rounded significand stays in `[2^52, 2^53]` -/
+theorem sig_bounds (x : Rat) (hx : 0 < x) :
+    pow2 52 ≤ (roundEven (x * pow2 (-(expOf x))) : Rat) ∧
+    (roundEven (x * pow2 (-(expOf x))) : Rat) ≤ pow2 53 := by
+  have hr := expOf_range x hx
+  have e52 : pow2 52 = (((2 ^ 52 : Nat) : Int) : Rat) := pow2_int 52
+  have e53 : pow2 53 = (((2 ^ 53 : Nat) : Int) : Rat) := pow2_int 53
+  constructor
+  · rw [e52]; apply Rat.intCast_le_intCast.2
+    apply le_roundEven; rw [← e52]; exact hr.1
+  · rw [e53]; apply Rat.intCast_le_intCast.2
+    apply roundEven_le; rw [← e53]; exact Rat.le_of_lt hr.2
+
+theorem mul_pow2_cancel (x : Rat) (e : Int) : x * pow2 (-e) * pow2 e = x := by
+  rw [Rat.mul_assoc, pow2_neg_mul, Rat.mul_one]
+
+theorem rnPos_mono {x y : Rat} (hx : 0 < x) (hxy : x ≤ y) : rnPos x ≤ rnPos y := by
+  have hy : 0 < y := by grind
+  have rx := expOf_range x hx
+  have ry := expOf_range y hy
+  have sx := sig_bounds x hx
+  have sy := sig_bounds y hy
+  rw [rnPos_eq, rnPos_eq]
+  -- the exponents are ordered
+  have hexp : expOf x ≤ expOf y := by
+    apply Classical.byContradiction
+    intro hc
+    have h1 : expOf y + 1 ≤ expOf x := by omega
+    -- y < 2^(53 + ey) ≤ 2^(52 + ex) ≤ x
+    have hyu : y < pow2 53 * pow2 (expOf y) := by
+      have := Rat.mul_lt_mul_of_pos_right ry.2 (pow2_pos (expOf y))
+      rwa [mul_pow2_cancel] at this
+    have hxl : pow2 52 * pow2 (expOf x) ≤ x := by
+      have := Rat.mul_le_mul_of_nonneg_right rx.1 (Rat.le_of_lt (pow2_pos (expOf x)))
+      rwa [mul_pow2_cancel] at this
+    have hm : pow2 53 * pow2 (expOf y) ≤ pow2 52 * pow2 (expOf x) := by
+      rw [← pow2_add, ← pow2_add]; apply pow2_mono; omega
+    grind
+  by_cases heq : expOf x = expOf y
+  · rw [heq]
+    apply Rat.mul_le_mul_of_nonneg_right _ (Rat.le_of_lt (pow2_pos _))
+    apply Rat.intCast_le_intCast.2
+    apply roundEven_mono
+    rw [← heq]
+    exact Rat.mul_le_mul_of_nonneg_right hxy (Rat.le_of_lt (pow2_pos _))
+  · have hlt : expOf x + 1 ≤ expOf y := by omega
+    have h1 : (roundEven (x * pow2 (-(expOf x))) : Rat) * pow2 (expOf x) ≤ pow2 53 * pow2 (expOf x) :=
+      Rat.mul_le_mul_of_nonneg_right sx.2 (Rat.le_of_lt (pow2_pos _))
+    have h2 : pow2 53 * pow2 (expOf x) ≤ pow2 52 * pow2 (expOf y) := by
+      rw [← pow2_add, ← pow2_add]; apply pow2_mono; omega
+    have h3 : pow2 52 * pow2 (expOf y) ≤ (roundEven (y * pow2 (-(expOf y))) : Rat) * pow2 (expOf y) :=
+      Rat.mul_le_mul_of_nonneg_right sy.1 (Rat.le_of_lt (pow2_pos _))
+    grind
+
+theorem rn_neg (x : Rat) : rn (-x) = -(rn x) := by
+  unfold rn
+  by_cases h0 : x = 0
+  · subst h0; simp
+  · have h0' : -x ≠ 0 := by grind
+    simp only [h0, h0', if_false]
+    by_cases hn : x < 0
+    · have : ¬ (-x < 0) := by grind
+      simp only [hn, this, if_true, if_false]; grind
+    · have : -x < 0 := by grind
+      simp only [hn, this, if_true, if_false, Rat.neg_neg]
+
+theorem rn_nonneg {x : Rat} (h : 0 ≤ x) : 0 ≤ rn x := by
+  unfold rn
+  by_cases h0 : x = 0
+  · simp [h0]
+  · have hp : 0 < x := by grind
+    have : ¬ x < 0 := by grind
+    simp only [h0, this, if_false]
+    exact Rat.le_of_lt (rnPos_pos x hp)
+
+/-- **rounding to nearest is monotone** -/
+theorem rn_mono {x y : Rat} (h : x ≤ y) : rn x ≤ rn y := by
+  by_cases hx : 0 < x
+  · have hy : 0 < y := by grind
+    have h1 : x ≠ 0 := by grind
+    have h2 : y ≠ 0 := by grind
+    have h3 : ¬ x < 0 := by grind
+    have h4 : ¬ y < 0 := by grind
+    unfold rn
+    simp only [h1, h2, h3, h4, if_false]
+    exact rnPos_mono hx h
+  · by_cases hy : 0 ≤ y
+    · have : rn x ≤ 0 := by
+        have := rn_nonneg (x := -x) (by grind)
+        rw [rn_neg] at this; grind
+      have := rn_nonneg hy
+      grind
+    · -- both negative
+      have hx' : x < 0 := by grind
+      have hy' : y < 0 := by grind
+      have h1 : x ≠ 0 := by grind
+      have h2 : y ≠ 0 := by grind
+      unfold rn
+      simp only [h1, h2, hx', hy', if_true, if_false]
+      have := rnPos_mono (x := -y) (y := -x) (by grind) (by grind)
+      grind
+
+
+theorem rn_zero : rn 0 = 0 := by simp [rn]
+
+/-- the rounded floor-mod stays in the CLOSED range when the divisor is a binary64 value -/
+theorem pymodF_range (a w : Rat) (hw : rn w = w) :
+    (0 < w → 0 ≤ pymodF a w ∧ pymodF a w ≤ w) ∧ (w < 0 → w ≤ pymodF a w ∧ pymodF a w ≤ 0) := by
+  unfold pymodF
+  constructor
+  · intro h
+    have hr := pymod_pos a w h
+    have h1 := rn_mono hr.1
+    have h2 := rn_mono (Rat.le_of_lt hr.2)
+    rw [rn_zero] at h1; rw [hw] at h2
+    exact ⟨h1, h2⟩
+  · intro h
+    have hr := pymod_neg a w h
+    have h1 := rn_mono (Rat.le_of_lt hr.1)
+    have h2 := rn_mono hr.2
+    rw [rn_zero] at h2; rw [hw] at h1
+    exact ⟨h1, h2⟩
+
+theorem pabs_le_iff (x w : Rat) : ¬ (pabs x > pabs w) → -(pabs w) ≤ x ∧ x ≤ pabs w := by
+  unfold pabs
+  intro h
+  split at h <;> split at h <;> constructor <;> grind
+
 end Ioflo.Wrap
